@@ -457,6 +457,9 @@ def canon_wpath(w):
     return tuple(out)
 
 
+CAUSES = ["args", "raise", "null_in_nonnull", "non_list", "bad_leaf", "unresolvable_type"]
+
+
 def dec_response(ints):
     """Model answer -> dict(kind=..., data, errors (sorted list of paths), calls)."""
     if ints == [999999]:
@@ -472,8 +475,10 @@ def dec_response(ints):
         p, f, args = c[2]
         cl.append((canon_wpath(p), s_of(f[1]),
                    tuple((s_of(a[2][0][1]), canon_wvalue(a[2][1])) for a in args[2])))
+    causes = {canon_wpath(e[2][0]): CAUSES[e[1][0]] for e in errs[2]}
     return {"kind": "response", "data": canon_wjson(data),
-            "errors": sorted((canon_wpath(e) for e in errs[2]), key=repr), "calls": cl}
+            "errors": sorted((canon_wpath(e[2][0]) for e in errs[2]), key=repr), "calls": cl,
+            "causes": causes}
 
 
 # --------------------------------------------------------------------------- implementation runner
@@ -705,7 +710,7 @@ class GSchema:
         return r.choice(self.enums[n])
 
     def sdl(self):
-        out = []
+        out = ["directive @tag(n: Int = 1, s: [String!]) repeatable on FIELD | FRAGMENT_SPREAD | INLINE_FRAGMENT | QUERY | MUTATION"]
         for e, vs in self.enums.items():
             out.append(f"enum {e} {{ {' '.join(vs)} }}")
 
@@ -740,6 +745,7 @@ class DocGen:
         self.frags = {}      # name -> (cond, body text)
         self.used_fields = set()
         self.features = set()
+        self.operation_name = None
         self.keymap = {}     # response key -> (field name, argument text), document wide
         self.altkey = {}
 
@@ -799,6 +805,9 @@ class DocGen:
     def directives(self):
         r = self.rng
         if r.random() > 0.22:
+            if r.random() < 0.04:
+                self.features.add("custom_directive")
+                return " " + r.choice(["@tag", "@tag(n: 2)", '@tag(s: ["a"]) @tag'])
             return ""
         out = []
         for d in r.sample(["skip", "include"], r.choice([1, 1, 2])):
@@ -913,6 +922,12 @@ class DocGen:
         text = f"{kind} Q{vdefs} {body}"
         for n, (c, b) in self.frags.items():
             text += f"\nfragment {n} on {c} {b}"
+        self.operation_name = None
+        if r.random() < 0.1:
+            # a second, unrelated operation: the request then names the one to execute
+            text = "query Other { __typename }\n" + text if r.random() < 0.5 else text + "\nquery Other { __typename }"
+            self.operation_name = "Q"
+            self.features.add("multiple_operations")
         return text
 
     # runtime values for the declared variables
